@@ -1,1 +1,2 @@
 import SrProofs.Adaptive
+import SrProofs.Thermal
